@@ -222,10 +222,16 @@ Print Assumptions convert_rows_in_use_refuted.
 Require Import Lia.
 Require Import LV.Mem.NewAlloc LV.Mem.NewAllocProofs LV.Mem.NewHoldProofs.
 
-(* The whole life cycle: for every set of parameters in creation order, every list of calls (vnacal_new_alloc, set frequency
-   vector, add with any argument class / parameter list / equation shape, vnacal_new_set_m_error, vnacal_new_solve with any
-   number of kernel requests, vnacal_new_free, on live / freed / never made handles, no bound on the length) followed by
-   vnacal_free, with or without one failing request: no out-of-bounds, use after free or double free ... *)
+(* The whole life cycle of the calibration builder, in a closed world of parameters: for every set of parameters numbered in
+   creation order (they exist before the history and are deleted by vnacal_free after it; vnacal_delete_parameter,
+   vnacal_make_*_parameter and vnacal_add_calibration are not ops of this model), every list of calls (vnacal_new_alloc, set
+   frequency vector, add with any argument class / parameter list / equation shape, vnacal_new_set_m_error incl. the spline that
+   refuses its frequencies, vnacal_new_solve with any number of kernel requests, succeeding or given up by a kernel,
+   vnacal_new_free; on live or NULL handles - a freed handle is NULL in the model and in the harness, a call on a dangling
+   pointer is outside; no bound on the length) followed by vnacal_free, with or without one failing request: no use after
+   free, no double free, no NULL dereference of a block pointer.  Indexed accesses INSIDE a block (vn_frequency_vector[0] /
+   [n-1], vn_m_error_vector[findex], vnss_p_vector[index]: the D63 class) are not expressed by this model - it touches whole
+   blocks only and its sizes are nominal; those reads are covered by the sanitizer runs. *)
 Theorem new_no_fault : forall ks ops k f, cfg_ok ks -> whistory NFixed ks ops (start k) <> Fault f.
 Proof. exact new_no_fault_lemma. Qed.
 Print Assumptions new_no_fault.
@@ -252,7 +258,7 @@ Print Assumptions new_hold_invariant_satisfiable.
 Example new_history_satisfiable :
   cfg_ok [KScalar; KScalar; KScalar; KScalar; KUnknown 3] /\
   exists os s', whistory NFixed [KScalar; KScalar; KScalar; KScalar; KUnknown 3]
-                  [WNew cfgA; WSetF 0; WAdd 0 (addA 4); WMErr 0 (MESet 2); WSolve 0 3 false] (start None) = Ok ((os, [0; 0; 0; 0; 0]%nat), s') /\
+                  [WNew cfgA; WSetF 0; WAdd 0 (addA 4); WMErr 0 (MESet 2); WSolve 0 3 false false] (start None) = Ok ((os, [0; 0; 0; 0; 0]%nat), s') /\
                 last os Done = Done.
 Proof.
   split.
@@ -286,3 +292,19 @@ Theorem new_free_no_fault_no_leak : forall F v ps s, LI (vown v ++ psown ps ++ F
   exists ps' s', new_free v ps s = Ok (ps', s') /\ LI (psown ps' ++ F) s' /\ length ps' = length ps.
 Proof. exact new_free_clean_lemma. Qed.
 Print Assumptions new_free_no_fault_no_leak.
+
+(* [release] of the model saturates at 0 where the C code asserts vpmr_hold_count > 0.  In every world a history reaches the
+   holds of a parameter are at least the number of nodes any one calibration has for it, so no release underflows: the
+   assertion cannot fire and "held = 0" at the end means "given back", not "saturated" *)
+Theorem new_release_no_underflow : forall ks ops k w os s h v,
+  wrun NFixed (mkW (mkprms ks) []) ops (start k) = Ok ((w, os), s) -> nth h (w_new w) None = Some v ->
+  forall j, cnt j (keys v) <= hcount (w_prm w) j.
+Proof. intros ks ops k w os s h v E Hh. exact (release_no_underflow w h v (hbw_reachable ks ops k w os s E) Hh). Qed.
+Print Assumptions new_release_no_underflow.
+
+(* the non-allocation exits are met by concrete histories: a kernel that gives up, a spline that refuses its frequencies *)
+Example new_failure_exits_satisfiable :
+  exists os held s', whistory NFixed [KScalar; KScalar; KScalar]
+    [WNew cfgA; WSetF 0; WMErr 0 (MESplineInvalid 0); WSolve 0 2 false true] (start None) = Ok ((os, held), s') /\
+    os = [Done; Done; Err EINVAL; Err EINVAL] /\ live s' = [].
+Proof. eexists; eexists; eexists; split; [vm_compute; reflexivity | split; reflexivity]. Qed.
